@@ -187,6 +187,9 @@ pub open spec fn seq_absdev(s: Seq<f64>, mu: real) -> real decreases s.len() {
     if s.len() == 0 { 0real } else { seq_absdev(s.drop_last(), mu) + rabs(rv(s.last()) - mu) }
 }
 pub open spec fn seq_mad(w: Seq<f64>) -> real { seq_absdev(w, seq_mean(w)) / (w.len() as real) }
+pub proof fn lemma_absdev_push(s: Seq<f64>, x: f64, mu: real)
+    ensures seq_absdev(s.push(x), mu) == seq_absdev(s, mu) + rabs(rv(x) - mu)
+{ assert(s.push(x).drop_last() =~= s); }
 pub proof fn lemma_absdev_concat(a: Seq<f64>, b: Seq<f64>, mu: real)
     ensures seq_absdev(a + b, mu) == seq_absdev(a, mu) + seq_absdev(b, mu)
     decreases b.len()
